@@ -59,7 +59,11 @@ def enumerate_pipeline_models(pipe, coor=None, vs=None):
                 for couple in enumerate_pipeline_models(model, coor + (i,)):
                     yield couple
         elif isinstance(pipe, ColumnTransformer):
-            for i, (_, fitted_transformer, column) in enumerate(pipe.transformers):
+            fitted = {n: t for n, t, _ in getattr(pipe, "transformers_", [])}
+            for i, (name, fitted_transformer, column) in enumerate(pipe.transformers):
+                if not isinstance(fitted_transformer, str):
+                    # a fitted ColumnTransformer runs clones kept in transformers_
+                    fitted_transformer = fitted.get(name, fitted_transformer)
                 for couple in enumerate_pipeline_models(
                     fitted_transformer, coor + (i,), column
                 ):
